@@ -7,10 +7,97 @@ E2E: random programs on the real simulators with the property's own oracle."""
 import simcorr
 import simgen
 from framework import fresh_import
-from simcheck import t_bias, check_step_oracle, single_step
+from simcheck import t_bias, check_step_oracle, single_step, guarded
 
 PROPS = 'SkoolVerif.Props.C08'
 PROPS_C = 'SkoolVerif.Props.C08C'
+
+
+def paging_variants(chk, pagingtracer, skoolutils, skoolmacro, only=None):
+    """The same write histories through the sibling code paths that decode port 0x7FFD on their own:
+    PagingTracer.write_port_with_border_list (trace.py's tracer when a border list is kept) on pagingtracer.Memory, and
+    skoolmacro.PagingTracer on skoolutils.Memory (the memory of a 128K skool file: #SIM, #AUDIO, #TSTATES).  Oracle: the
+    property's statement (mapping = last accepted write, lock absorbing, banks 5 and 2 fixed, one bank written)."""
+    rng = chk.rng
+
+    class Sim:
+        pass
+
+    class BorderTr(pagingtracer.PagingTracer):
+        def __init__(self, memory, out7ffd):
+            self.simulator = Sim()
+            self.simulator.memory = memory
+            self.out7ffd = out7ffd
+            self.border = []
+            self.frame_duration = 70908
+            self.outfe = 0
+            self.outfffd = 0
+            self.ay = [0] * 16
+
+        def write(self, p, v):
+            regs = [0] * 30
+            self.write_port_with_border_list(regs, p, v, 0)
+
+    def make(kind, o0):
+        if kind == 'border-list':
+            mem = pagingtracer.Memory([[b] * 16384 for b in range(8)], o0)
+            mem.roms = ([100] * 16384, [101] * 16384)
+            mem.out7ffd(o0)
+            tr = BorderTr(mem, o0)
+            return mem, tr.write
+        mem = skoolutils.Memory(banks=[[b] * 16384 for b in range(8)], roms=([100] * 16384, [101] * 16384))
+        mem.out7ffd(o0)
+        tr = skoolmacro.PagingTracer(mem, o0, 0, [0] * 16)
+        return mem, lambda p, v: tr.write_port([0] * 30, p, v, 0)
+
+    ports = (0x7FFD, 0x7FFF, 0xFFFD, 0x3FFD, 0x0000, 0x00FD, 0x8000, 0x0002, 0x7FFC, 0xBFFD, 0x1FFD)
+    vals = (0, 1, 7, 8, 0x10, 0x17, 0x20, 0x27, 0x30, 0x3F, 0xFF, 0xC0, 0x04, 0x0C)
+    hists = []
+    for o0 in (0, 0x10, 0x20, 7):
+        for p1 in ports:
+            for v1 in vals:
+                hists.append((o0, [(p1, v1)]))
+                for v2 in (0, 5, 0x10, 0x25):
+                    hists.append((o0, [(p1, v1), (0x7FFD, v2)]))
+    for _ in range(chk.scale(200, 5000)):
+        hists.append((rng.randrange(256), [(rng.choice(ports + (rng.randrange(65536),)), rng.randrange(256)) for _ in range(rng.randrange(1, 6))]))
+    if only:
+        hists = [(only[1], [tuple(w) for w in only[2]])]
+    for kind in ('border-list', 'skool-memory'):
+        if only and kind != only[0]:
+            continue
+        for o0, ws in hists:
+            try:
+                mem, write = make(kind, o0)
+                last = o0
+                bad = None
+                for i, (p, v) in enumerate(ws):
+                    write(p, v)
+                    if (p >> 15) & 1 == 0 and (p >> 1) & 1 == 0 and (last >> 5) & 1 == 0:
+                        last = v
+                    if mem[0] != 100 + ((last >> 4) & 1):
+                        bad = 'paging-rom-slot'
+                    elif mem[0xC000] != last & 7:
+                        bad = 'paging-bank-at-c000'
+                    elif mem[0x4000] != 5 or mem[0x8000] != 2:
+                        bad = 'paging-fixed-banks'
+                    elif mem.o7ffd != last:
+                        bad = 'paging-latch'
+                    if bad:
+                        break
+                if not bad:
+                    # writes reach exactly one physical bank
+                    mem[0xC001] = 0xAA
+                    hit = [b for b in range(8) if mem.banks[b][1] == 0xAA]
+                    if hit != [last & 7]:
+                        bad = 'paging-one-bank-written'
+                desc = f'visible ROM {mem[0]}, bank at C000 {mem[0xC000]}, latch {mem.o7ffd}, spec last accepted {last}'
+            except Exception as e:
+                bad, desc = 'paging-exception', f'{type(e).__name__}: {e}'
+            chk.case(f'hist:{kind}', (kind, o0, tuple(ws)), {'path': kind, 'o7ffd0': o0, 'writes': ws} if len(ws) == 2 and o0 == 0x10 and ws[0][1] == 0x27 else None)
+            if bad:
+                chk.violation(f'{bad}:{kind}', f'{kind}: o7ffd0={o0} writes={ws}: {desc}', {'kind': 'paging-variant', 'path': kind, 'o0': o0, 'ws': ws})
+                break
 
 
 def paging(chk, pagingtracer):
@@ -97,7 +184,7 @@ def paging(chk, pagingtracer):
     chk.compare('Mem128 model vs pagingtracer.Memory/PagingTracer', ops, impl, model)
 
 
-def paging_programs(chk, classes, pagingtracer, only=None):
+def paging_programs(chk, classes, pagingtracer, only=None, skool=None):
     """The paging clause on the four real simulators (the C ones page by themselves, with or without a
     tracer): a Z80 program writes a history of values to ports with OUT (C),A, then reads 0xC000 (every
     bank holds its own number), reads the ROM slot, and writes a marker to 0xC001.  Oracle: the
@@ -124,17 +211,28 @@ def paging_programs(chk, classes, pagingtracer, only=None):
         code += [0x3E, MARK, 0x32, 0x01, 0xC0]                         # LD A,MARK; LD (C001),A
         return code
 
-    def one(name, cls, tracer, o0, ws):
-        memory = pagingtracer.Memory([[b] * 0x4000 for b in range(8)], o0)
-        memory.roms = ([100] * 0x4000, [101] * 0x4000)
-        memory.out7ffd(o0)
+    def one(name, cls, tracer, o0, ws, kind='paging'):
         code = program(ws)
-        for i, b in enumerate(code):
-            memory[ORG + i] = b
-        sim = cls(memory, {'PC': ORG, 'SP': 0xBFF0}, config={'frame_duration': 70908, 'int_active': 36})
-        if tracer:
-            sim.set_tracer(Tr(sim, o0))
-        sim.run(ORG, ORG + len(code))
+        try:
+            if kind == 'skool':
+                # the memory of a 128K skool file with the tracer #SIM attaches (skoolutils.Memory + skoolmacro.PagingTracer)
+                skoolutils, skoolmacro = skool
+                memory = skoolutils.Memory(banks=[[b] * 0x4000 for b in range(8)], roms=([100] * 0x4000, [101] * 0x4000))
+                memory.out7ffd(o0)
+            else:
+                memory = pagingtracer.Memory([[b] * 0x4000 for b in range(8)], o0)
+                memory.roms = ([100] * 0x4000, [101] * 0x4000)
+                memory.out7ffd(o0)
+            for i, b in enumerate(code):
+                memory[ORG + i] = b
+            sim = cls(memory, {'PC': ORG, 'SP': 0xBFF0}, config={'frame_duration': 70908, 'int_active': 36})
+            if tracer:
+                sim.set_tracer(skoolmacro.PagingTracer(sim.memory, o0, 0, [0] * 16) if kind == 'skool' else Tr(sim, o0))
+            sim.run(ORG, ORG + len(code))
+        except Exception as e:
+            chk.violation(f'paging-program-exception:{name}:{kind}', f'{name} ({kind} memory): 7ffd={o0:#x}, OUT history {ws}: {type(e).__name__}: {e}',
+                          {'kind': 'paging-program', 'impl': name, 'tracer': tracer, 'o0': o0, 'ws': ws, 'mem': kind})
+            return False
         mem = sim.memory
         last = o0
         for p, v in ws:
@@ -143,19 +241,23 @@ def paging_programs(chk, classes, pagingtracer, only=None):
         # the program itself lives in bank 2: paged at 0xC000 its first byte is read back there
         want = (code[0] if last & 7 == 2 else last & 7, 100 + ((last >> 4) & 1), [last & 7])
         got = (mem.banks[2][RES - 0x8000], mem.banks[2][RES + 1 - 0x8000], [b for b in range(8) if mem.banks[b][1] == MARK and not (b == 2 and code[1] == MARK and last & 7 != 2)])   # bank 2 holds the program: its own byte 1 may equal the marker
+        if tracer:
+            # the memory object as the tools read it afterwards (snapshot writers, #PEEK after #SIM): same mapping
+            want += ((last & 7, 100 + ((last >> 4) & 1)),)
+            got += ((mem[0xF000], mem[0x0005]),)
         fixed = all(v == 5 for v in mem.banks[5][2:64]) and all(mem.banks[2][i] == 2 for i in range(0x200, 0x240)) \
             and all(v == 100 for v in mem.roms[0][:8]) and all(v == 101 for v in mem.roms[1][:8])
-        chk.case(f'paging-prog:{name}', (name, tracer, o0, tuple(ws)), {'impl': name, 'tracer': tracer, 'o7ffd0': o0, 'writes': ws} if len(ws) == 3 and o0 == 0 else None)
+        chk.case(f'paging-prog:{name}' + (':skool-memory' if kind == 'skool' else ''), (name, kind, tracer, o0, tuple(ws)), {'impl': name, 'tracer': tracer, 'o7ffd0': o0, 'writes': ws} if len(ws) == 3 and o0 == 0 else None)
         if got != want or not fixed:
-            chk.violation(f'paging-program:{name}', f'{name}{"+tracer" if tracer else ""}: 7ffd={o0:#x}, OUT history {[(hex(p), hex(v)) for p, v in ws]}: '
+            chk.violation(f'paging-program:{name}' + (':skool-memory' if kind == 'skool' else ''), f'{name}{"+tracer" if tracer else ""} ({kind} memory): 7ffd={o0:#x}, OUT history {[(hex(p), hex(v)) for p, v in ws]}: '
                           f'bank read at C000 / ROM read at 0000 / banks written = {got}, last accepted write {last:#x} gives {want}; fixed banks and ROMs intact: {fixed}',
-                          {'kind': 'paging-program', 'impl': name, 'tracer': tracer, 'o0': o0, 'ws': ws})
+                          {'kind': 'paging-program', 'impl': name, 'tracer': tracer, 'o0': o0, 'ws': ws, 'mem': kind})
             return False
         return True
 
     if only:
-        name, tracer, o0, ws = only
-        return one(name, dict(classes)[name], tracer, o0, [tuple(w) for w in ws])
+        name, tracer, o0, ws = only[:4]
+        return one(name, dict(classes)[name], tracer, o0, [tuple(w) for w in ws], only[4] if len(only) > 4 else 'paging')
     vals = (0x00, 0x01, 0x07, 0x10, 0x11, 0x17, 0x20, 0x21, 0x30, 0x31, 0x27, 0xFF, 0xC3)
     ports = (0x7FFD, 0x7FFD, 0x7FFD, 0x00FD, 0x3FFD, 0x7FFF, 0xFFFD, 0x7FFC)
     hists = []
@@ -168,13 +270,22 @@ def paging_programs(chk, classes, pagingtracer, only=None):
     for _ in range(chk.scale(60, 4000)):
         hists.append((rng.choice((0, 0, 0x10, 0x07, 0x20, rng.randrange(256))),
                       [(rng.choice(ports + (rng.randrange(65536),)), rng.choice(vals + (rng.randrange(256),))) for _ in range(rng.randrange(1, 5))]))
+    # the mapping a simulator starts from (Memory.convert() for the C ones: its own copy of the bank / ROM selection): every
+    # bank x ROM x lock value with no write at all, and with a write that must be rejected
+    init_hists = [(o0, []) for o0 in range(64)] + [(o0, [(0x7FFF, o0 ^ 7)]) for o0 in (0x07, 0x14, 0x25, 0x3E)]
     for name, cls in classes:
         # the Python simulators page through the tracer only; the C ones also without it
         for tracer in ((True,) if name.startswith('py') else (False, True)):
             hs = hists if not name.startswith('py') or chk.thorough else hists[::3]
+            hs = (init_hists[::5] if name.startswith('py') else init_hists) + hs
             for o0, ws in hs:
                 if not one(name, cls, tracer, o0, ws):
                     break
+            if skool and tracer:
+                # #SIM / #AUDIO / #TSTATES run the same simulators on the skool file's own Memory class
+                for o0, ws in (init_hists[::5] if name.startswith('py') else init_hists) + hists[1::4]:
+                    if not one(name, cls, tracer, o0, ws, 'skool'):
+                        break
 
 
 def programs(chk, classes):
@@ -196,7 +307,11 @@ def programs(chk, classes):
             t_prev = sim.registers[25]
             bad = None
             for step in range(chk.scale(150, 400)):
-                sim.run(pc)
+                try:
+                    sim.run(pc)
+                except Exception as e:       # the code under test must not raise, whatever the program does
+                    bad = ('exception', f'{type(e).__name__}: {e} (PC={pc})')
+                    break
                 r = sim.registers
                 pc = r[24]
                 if r[25] < t_prev:
@@ -210,7 +325,9 @@ def programs(chk, classes):
                 if bad:
                     break
             m = sim.memory
-            if not bad and list(m[:0x4000]) != rom:
+            if bad and bad[0] == 'exception':
+                pass
+            elif not bad and list(m[:0x4000]) != rom:
                 a = [i for i in range(0x4000) if m[i] != rom[i]][0]
                 bad = ('rom-write', f'ROM address {a} changed from {rom[a]} to {m[a]}')
             if not bad and any(not 0 <= v < 256 for v in m):
@@ -226,7 +343,10 @@ def run(chk):
                 'boundaries, frame positions around the contention window) on Python plain/cmio and C plain/cmio simulators, '
                 'each result checked against the property oracle and against the generated Lean model; paging: write '
                 'histories (exhaustive over boundary alphabets up to length 2; all 256^2 at the decoding port in thorough; random '
-                'up to length 5); programs: random code executed on the real simulators with ROM/range/T checks. '
+                'up to length 5), also through PagingTracer.write_port_with_border_list and through skoolutils.Memory + skoolmacro.PagingTracer (the 128K skool-file memory of #SIM), '
+                'and as Z80 programs on all four simulators on both memory classes; programs: random code executed on the real simulators with ROM/range/T checks; '
+                'loop-at-once closures djnz_fast/ldir_fast (config fast_djnz/fast_ldir) on DJNZ/LDIR/LDDR cases crossing the ROM boundary, the 64K wrap and their own opcode; '
+                'after a broken proof: every slot whose Python closure / C handler changed x operand-byte boundaries x address operands on every 16K/64K edge x counters x interrupt-window edges. '
                 'non-trivial = distinct (impl, slot, state) / distinct history')
     chk.trusted += ['translator translate/py2lean.py (Python AST subset -> Lean; validated per slot each run)',
                     'translate/cdispatch.py (C dispatch initialisers -> Instr)',
@@ -236,8 +356,10 @@ def run(chk):
                         '(ranges_preserved, no closure excluded: translate/gen_range.py PENDING is empty; the closures in its '
                         'MANUAL table are proved by the closure-independent tactic rinv_manual of Proofs/RangeManual.lean)',
                         'C simulators: ROM/range/clock over runs of the translated C handlers are theorems (Props/C08C.lean, under the C clock bound and, on 128K, an attached tracer); the C paging latch (OUT macro) is covered by the paging programs e2e and C06 correspondence, not by theorem',
-                        'skoolutils.Memory (@bank/#BANK) is not modelled']
-    simulator, cmiosimulator, pagingtracer = fresh_import('skoolkit.simulator', 'skoolkit.cmiosimulator', 'skoolkit.pagingtracer')
+                        'skoolutils.Memory (@bank/#BANK) is not modelled in Lean: its out7ffd/convert are covered by the write histories and paging programs (e2e oracle = the property statement)',
+                        'Simulator.djnz_fast / ldir_fast (whole loop per call) are not translated: property oracle on directed loop cases (e2e), equality with the per-iteration closures in C06']
+    simulator, cmiosimulator, pagingtracer, skoolutils, skoolmacro = fresh_import(
+        'skoolkit.simulator', 'skoolkit.cmiosimulator', 'skoolkit.pagingtracer', 'skoolkit.skoolutils', 'skoolkit.skoolmacro')
     gen_ok = simgen.regen(chk)
     ok = chk.lake_build([PROPS, 'SkoolVerif.Prelude.SimProto', 'SkoolVerif.Gen.CmioHandlers']) if gen_ok else False
     chk.audit(PROPS)
@@ -256,28 +378,76 @@ def run(chk):
              ('py-cmio', simcorr.PySim(cmiosimulator.CMIOSimulator), 'Cmio', False),
              ('c-plain', simcorr.CSim(CS), 'Sim', True),
              ('c-cmio', simcorr.CSim(CC), 'Cmio', True)]
+    def oracle_sweep(name, wrapper, tbl, op, states):
+        for st in states:
+            out = wrapper.step(*st)
+            bad = check_step_oracle(st[0], st[1], st[2], out)
+            chk.case(f'{name}:{tbl}', (name, tbl, op, tuple(st[0]), tuple(st[1])))
+            if bad:
+                chk.violation(f'{bad[0]}:{name}:{tbl}:{op:02X}', f'{name} slot {tbl} {op:02X}: {bad[1]}',
+                              {'kind': 'step', 'impl': name, 'state': [st[0], st[1], {str(k): v for k, v in st[2].items()}, st[3], st[4]]})
+
+    from simcheck import suspect_slots, c_suspect_slots, directed_states, edge_states
     if gen_ok and ok:
         single_step(chk, impls)
     else:
-        # broken translator/proof: evaluate the property's oracle on the real code per slot (directed search:
-        # slots whose closure is named in the build errors get an exhaustive boundary sweep of their operand bytes)
+        # broken translator/proof: evaluate the property's oracle on the real code per slot
         chk.note('model unavailable: running the per-slot oracle on the real simulators only')
-        from simcheck import suspect_slots, directed_states
-        suspects = set(suspect_slots(chk))
         for name, wrapper, driver, is_c in impls:
             for tbl, op in simcorr.all_slots():
-                states = directed_states(chk.rng, tbl, op, 200) if (tbl, op) in suspects else \
-                    (simcorr.rand_state(chk.rng, tbl, op, t_bias=t_bias) for _ in range(chk.scale(10, 60)))
-                for st in states:
-                    out = wrapper.step(*st)
-                    bad = check_step_oracle(st[0], st[1], st[2], out)
-                    chk.case(f'{name}:{tbl}', (name, tbl, op, tuple(st[0])))
-                    if bad:
-                        chk.violation(f'{bad[0]}:{name}:{tbl}:{op:02X}', f'{name} slot {tbl} {op:02X}: {bad[1]}',
-                                      {'kind': 'step', 'impl': name, 'state': [st[0], st[1], {str(k): v for k, v in st[2].items()}, st[3], st[4]]})
-    paging(chk, pagingtracer)
-    programs(chk, [('py-plain', simulator.Simulator), ('py-cmio', cmiosimulator.CMIOSimulator), ('c-plain', CS), ('c-cmio', CC)])
-    paging_programs(chk, [('py-plain', simulator.Simulator), ('py-cmio', cmiosimulator.CMIOSimulator), ('c-plain', CS), ('c-cmio', CC)], pagingtracer)
+                oracle_sweep(name, wrapper, tbl, op, (simcorr.rand_state(chk.rng, tbl, op, t_bias=t_bias) for _ in range(chk.scale(10, 60))))
+    if chk.breaks:
+        # directed search (DESIGN §5): the slots whose Python closure / C handler / dispatch row differs from the committed
+        # translation get an exhaustive boundary sweep of their operand bytes plus a deterministic sweep of every address
+        # operand over the 16K-region and 64K edges, loop counters, R wrap and the interrupt-window edges
+        py_sus, c_sus = suspect_slots(chk), c_suspect_slots(chk)
+        for name, wrapper, driver, is_c in impls:
+            sus = c_sus if is_c else py_sus
+            light = len(sus) > 40
+            for tbl, op in sus[:700]:
+                oracle_sweep(name, wrapper, tbl, op, directed_states(chk.rng, tbl, op, 30 if light else 200))
+                oracle_sweep(name, wrapper, tbl, op, edge_states(chk.rng, tbl, op, light=light))
+    classes = [('py-plain', simulator.Simulator), ('py-cmio', cmiosimulator.CMIOSimulator), ('c-plain', CS), ('c-cmio', CC)]
+    guarded(chk, 'paging', paging, chk, pagingtracer)
+    guarded(chk, 'paging-variants', paging_variants, chk, pagingtracer, skoolutils, skoolmacro)
+    guarded(chk, 'programs', programs, chk, classes)
+    guarded(chk, 'paging-programs', paging_programs, chk, classes, pagingtracer, skool=(skoolutils, skoolmacro))
+    guarded(chk, 'fast-loops', fast_loops, chk, simulator)
+    guarded(chk, 'interrupt-oracle', interrupt_oracle, chk, classes)
+
+
+def interrupt_oracle(chk, classes, only=None):
+    """accept_interrupt (the one store path outside the opcode closures) on all four simulators: SP on the ROM / 64K
+    edges, IM 0-2, vector table anywhere; oracle: no ROM write, registers / cells in range, clock not decreasing."""
+    import cgencheck
+    rng = chk.rng
+    for name, cls in classes:
+        w = (cgencheck.CInt48 if name.startswith('c-') else cgencheck.PyInt48)(cls)
+        states = [only] if only else cgencheck.interrupt_states(rng, chk.scale(500, 4000))
+        for regs, fields, mem, prev in states:
+            mem = {int(k): v for k, v in mem.items()}
+            if only and only[4] != name:
+                continue
+            out = w.step(regs, fields, mem, [], [0, 0, 0, 0], prev)
+            bad = check_step_oracle(regs, fields, mem, out)
+            chk.case(f'interrupt:{name}', (name, 'int', tuple(regs), tuple(fields), prev))
+            if bad:
+                chk.violation(f'{bad[0]}:{name}:accept_interrupt', f'{name} accept_interrupt(prev_pc={prev}) with SP={regs[12]} PC={fields[0]} IM={fields[3]}: {bad[1]}',
+                              {'kind': 'interrupt', 'impl': name, 'prev': prev, 'state': [regs, fields, {str(k): v for k, v in mem.items()}]})
+                if only:
+                    return True
+    return False
+
+
+def fast_loops(chk, simulator, only=None):
+    """The property's oracle on the loop-at-once closures Simulator.djnz_fast / ldir_fast (config fast_djnz / fast_ldir:
+    trace.py without -v, #SIM, #AUDIO, #TSTATES): no ROM write, registers and cells in range, clock not decreasing."""
+    import simcheck
+    found = simcheck.fast_vs_iterated(chk, simulator.Simulator, None, only=only, oracle_only=True)
+    for what, key, desc, rep in found:
+        if what == 'oracle':
+            chk.violation(key, desc, rep)
+    return bool(found)
 
 
 def replay(chk, data):
@@ -319,6 +489,28 @@ def replay(chk, data):
     if data['kind'] == 'paging-program':
         import cbuild
         CS, CC = cbuild.build(chk.scratch)
+        simulator, cmiosimulator, pagingtracer, skoolutils, skoolmacro = fresh_import(
+            'skoolkit.simulator', 'skoolkit.cmiosimulator', 'skoolkit.pagingtracer', 'skoolkit.skoolutils', 'skoolkit.skoolmacro')
         classes = [('py-plain', simulator.Simulator), ('py-cmio', cmiosimulator.CMIOSimulator), ('c-plain', CS), ('c-cmio', CC)]
-        return not paging_programs(chk, classes, pagingtracer, only=(data['impl'], data['tracer'], data['o0'], data['ws']))
+        return not paging_programs(chk, classes, pagingtracer, only=(data['impl'], data['tracer'], data['o0'], data['ws'], data.get('mem', 'paging')),
+                                   skool=(skoolutils, skoolmacro))
+    if data['kind'] == 'paging-variant':
+        pagingtracer, skoolutils, skoolmacro = fresh_import('skoolkit.pagingtracer', 'skoolkit.skoolutils', 'skoolkit.skoolmacro')
+        n0 = len(chk.violations)
+        paging_variants(chk, pagingtracer, skoolutils, skoolmacro, only=(data['path'], data['o0'], data['ws']))
+        return len(chk.violations) > n0
+    if data['kind'] == 'fast':
+        (simulator,) = fresh_import('skoolkit.simulator')
+        return fast_loops(chk, simulator, only=tuple(data['case']))
+    if data['kind'] == 'interrupt':
+        import cbuild
+        CS, CC = cbuild.build(chk.scratch)
+        simulator, cmiosimulator = fresh_import('skoolkit.simulator', 'skoolkit.cmiosimulator')
+        classes = [('py-plain', simulator.Simulator), ('py-cmio', cmiosimulator.CMIOSimulator), ('c-plain', CS), ('c-cmio', CC)]
+        regs, fields, mem = data['state']
+        return interrupt_oracle(chk, classes, only=(regs, fields, mem, data['prev'], data['impl']))
+    if data['kind'] == 'group-exception':
+        n0 = len(chk.violations)
+        run(chk)
+        return len(chk.violations) > n0
     return True
